@@ -96,6 +96,12 @@ impl ConnectionValidator {
         client_not_expired & client_elapsed_not_in_far_future
     }
 
+    /// Set the validator's whole-second clock directly
+    #[cfg(feature = "verif")]
+    pub fn verif_set_elapsed(&mut self, seconds_since_start: u32) {
+        self.seconds_since_start = seconds_since_start;
+    }
+
     pub fn update_elapsed(&mut self) {
         if let Some(dur) = Instant::now().checked_duration_since(self.start_time) {
             self.seconds_since_start = dur.as_secs() as u32;
